@@ -253,6 +253,7 @@ func checkC01(c *Ctx) {
 		c.R.Floor("J3.tail", 1)
 	}
 	c.rulePadFresh("J6.padzero")
+	c.rulePadLength("J8.padlen")
 	// parsing keeps nothing in package-level memory between calls
 	c.rulePureAs("E.state", []string{"authenticode.Parse", "authenticode.(*PECOFFBinary).Hash"})
 	c.R.Floor("E.state", 2)
@@ -1401,4 +1402,45 @@ func (c *Ctx) comparatorByCases(cmpFn *ssa.Function) (bool, string) {
 		}
 	}
 	return true, ""
+}
+
+// rulePadLength (J8.padlen): the number of zero bytes hashed behind the image
+// is computed from the size of the whole file (the distance of FILE_SIZE to the
+// next multiple of 8), not from the length of one of its parts. Decided by
+// provenance: what is handed to PaddingBytes in Parse derives from the header
+// size (the running total that starts at SizeOfHeaders) or from a size of the
+// whole input (a full read from offset 0, a Size() of the reader).
+func (c *Ctx) rulePadLength(rule string) {
+	fn := c.FnOpt("authenticode.Parse")
+	if fn == nil {
+		return
+	}
+	var pad *ssa.Call
+	for _, f := range withAnon(fn) {
+		instrsOf(f, func(i ssa.Instruction) {
+			if call, ok := i.(*ssa.Call); ok && ir.CallID(call) == acPkg+".PaddingBytes" {
+				pad = call
+			}
+		})
+	}
+	if pad == nil {
+		c.R.Infof(rule, name(fn), "pad-length", c.Pos(fn.Pos()), "not decided for this shape: Parse does not compute the padding with PaddingBytes itself")
+		return
+	}
+	// by value: a sum that consists of nothing but lengths of buffers is the size
+	// of parts of the file; the file size carries the running total (headers and
+	// sections) or a size of the whole input besides
+	a := affineOf(pad.Call.Args[0], 0)
+	onlyLens := len(a.T) > 0
+	for sym := range a.T {
+		if !strings.HasPrefix(sym, "len(") {
+			onlyLens = false
+		}
+	}
+	if onlyLens {
+		c.R.Violf(rule, name(fn), "pad-length", c.IPos(pad), "the zero padding behind the image is the distance of the file size to the next multiple of 8",
+			"the length handed to PaddingBytes is "+a.String()+": the length of a part of the file, not the size of the file (header size and section sizes do not enter): for an image whose headers and sections do not add up to a multiple of 8 the wrong number of zero bytes is hashed")
+		return
+	}
+	c.R.Okf(rule, name(fn), "pad-length", c.IPos(pad), "the length the padding is computed from is not just the length of one part of the file")
 }
